@@ -79,6 +79,13 @@ CHECKS = {
         "outputs of the same run are parsed by independent parsers and must describe the same groups with matching counts; -o FILE (pre-existing, longer file) must equal stdout; paths absolute.",
    note="content classes by direct comparison of the bytes; 128-bit hash collisions outside the property; seeded random trees around the stage thresholds (not exhaustive over sizes)",
    tech="TLC-evaluated declarative spec as oracle + cross-format comparison"),
+ "C13": dict(cat="model_checking", sec="5 C13",
+   text="Rehash.tla (device threads, throttle semaphore, pool workers, open-files permits, channel, collector) is model-checked by TLC for every interleaving: no deadlock (also with one-thread "
+        "pools), termination under weak fairness, bounded in-flight tasks, and confluence (the collected map does not depend on the schedule). Hook events of real rehash invocations are validated "
+        "by TLC against the task life cycle (Trace_Rehash). On the real binary a configuration matrix (repeated runs, thread-pool specifications, permutations of the roots, --stdin) must give "
+        "byte-identical report bodies, and hash function / prefix / suffix / device type / cache variations identical partitions, every run under a 60 s bound.",
+   note="real schedules are sampled, the exhaustive part is on the model; with --isolate only the groups are compared under root permutation",
+   tech="TLC model checking (safety + liveness) + hook trace validation + metamorphic replay of the configuration matrix"),
 }
 
 def main():
